@@ -14,7 +14,7 @@
 
 using namespace pbt;
 
-struct C { dc::Call call; int valid = 0; std::string how; Bytes pre, unit; long rep_count = 0; };
+struct C { dc::Call call; int valid = 0; std::string how; Bytes pre, unit; long rep_count = 0; bool multi = false; };
 static Bytes fullInput(const C &c) { Bytes b = c.pre; for (long i = 0; i < c.rep_count; i++) b.insert(b.end(), c.unit.begin(), c.unit.end()); b.insert(b.end(), c.call.in.begin(), c.call.in.end()); return b; }
 static CaseText ser(const C &c) {
   CaseText t; t.put_i("fam", c.call.fam); t.put_i("sub", c.call.sub); t.put_i("bw", c.call.bw); t.put_i("n", c.call.n); t.put_i("m", c.call.m); t.put_i("tl", c.call.tl);
@@ -108,6 +108,12 @@ static C validCodec() {
   int codec = c.call.sub == 0 || c.call.sub == 4 ? pq::SNAPPY : c.call.sub == 1 ? pq::LZ4_RAW : c.call.sub == 2 ? pq::GZIP : pq::ZSTD;
   Bytes out; if (!pw::compress(codec, plain, out)) out = plain;
   c.call.in = out; c.call.n = (int64_t)plain.size();
+  // concatenated members / frames (block-wise writers produce them): a second complete stream behind the first; the
+  // declared capacity is that of the first, of both, or in between
+  if ((codec == pq::GZIP || codec == pq::ZSTD) && *irange(0, 2) == 0) {
+    Bytes plain2 = gen::expand(*rc::gen::resize(6, gen::segsGen(2000)), 1 << 15), out2;
+    if (pw::compress(codec, plain2, out2)) { c.call.in.insert(c.call.in.end(), out2.begin(), out2.end()); c.call.n = *rc::gen::element<int64_t>((int64_t)plain.size(), (int64_t)(plain.size() + plain2.size()), (int64_t)(plain.size() + plain2.size() / 2), (int64_t)plain.size() + 1); c.how = ""; c.multi = true; }
+  }
   return c;
 }
 static C validThrift() {
@@ -186,7 +192,7 @@ static rc::Gen<C> genC() {
     }
     if (!c.how.empty()) return c;   // deep nesting cases are used as built
     int nm = *rc::gen::weightedElement<int>({{2, 0}, {5, 1}, {2, 2}, {1, 3}});
-    c.valid = nm == 0;
+    c.valid = nm == 0 && !c.multi;
     for (int i = 0; i < nm; i++) { if (*irange(0, 2) == 0) mutateParams(c, c.how); else mutateBytes(c.call.in, c.how); }
     if (c.valid) c.how = "valid";
     return c;
